@@ -1,9 +1,18 @@
+import importlib.util
+import os
+
+_D = os.path.dirname(os.path.abspath(__file__))
+_s = importlib.util.spec_from_file_location("C03c_part", os.path.join(_D, "C03c_part.py"))
+_m = importlib.util.module_from_spec(_s)
+_s.loader.exec_module(_m)
+_c = _m.PART
+
 SPEC = {
     "id": "C03",
     "level": "proof",
     "coq": {
-        "props": ["Props/C03a.v", "Props/C03b.v"],
-        "extract": ["Extract/ExtTcb.v"],
+        "props": ["Props/C03a.v", "Props/C03b.v"] + _c["props"],
+        "extract": ["Extract/ExtTcb.v"] + _c["extract"],
         "theorems": "auto",
         "allow_axioms": [],
     },
@@ -14,15 +23,16 @@ SPEC = {
         # numbers, data before FIN, release of both endpoints after the loss-free tail, no reset in a closed system
         {"name": "tcb_open_close", "bin": "tcb_lockstep", "model": "tcb", "extra_args": "--conformant",
          "n_quick": 560, "n_thorough": 40000, "shards": 8, "shards_thorough": 16, "seed_salt": 3},
-    ],
+    ] + _c["stages"],
     "rule": "see C01; oracle additionally checks rfc_edge for every (state before, state after) pair, RCV.IRS = peer ISS "
             "and ISS+1 <= RCV.NXT <= peer SND.NXT when both sides are synchronised, and the final states after closes",
-    "trusted_base": [
+    "trusted_base": _c["trusted_base"] + [
         "Coq 8.16.1 kernel",
         "hand transcription tcb.rs -> Model/Tcb.v, checked by lock-step; TcpNet composition mirrors the harness",
-        "the session table of tcp.rs (dead sessions stay in the map, no RST for them) is outside the model",
+        "the session table / listen bindings of tcp.rs are modelled in Model/TcpDemux.v (Props/C03c.v) and tied by "
+        "full-stack trace validation; the TCB inside a session is opaque there",
     ],
-    "assumptions": [
+    "assumptions": _c["assumptions"] + [
         "old duplicate SYNs from an earlier incarnation are covered by the per-step edge theorems (arbitrary segments) "
         "but not by the closed-system theorems (C03_sync, C03_data_before_fin)",
         "release after closes is checked by the harness on loss-free tails (not a theorem); runs in which a 2*MSL wait "
